@@ -1018,6 +1018,13 @@ impl Config {
     ) -> Result<Completions, error::Error> {
         const MAX_RESTARTS: u32 = 10;
 
+        // Make sure the cursor lies within the input and on a character boundary; callers
+        // (e.g., `brushctl complete line --cursor N`) may hand us an arbitrary byte offset.
+        let mut position = position.min(input.len());
+        while !input.is_char_boundary(position) {
+            position -= 1;
+        }
+
         // Make a best-effort attempt to tokenize.
         let tokens = Self::tokenize_input_for_completion(shell, input);
 
